@@ -305,13 +305,25 @@ func runC19(d *RunDesc, res *RunResult) {
 									tr = (k/2)%2 == 1
 								}
 								sf := Fault{ErrAt: k, ErrKind: (k + wd) % len(injectedErrors), ErrWithData: wd%2 == 1, WriterTo: k%5 == 4 && wd < 2, Transient: tr}
-								switch k % 4 {
-								case 1:
-									sf.Chunks = []int{1}
-								case 2:
-									sf.Chunks = []int{3, 0, 2}
-								case 3:
-									sf.Chunks = []int{7}
+								if n > 2048 {
+									// large template: no bytewise delivery (cost), buffer-sized chunks instead
+									switch k % 4 {
+									case 1:
+										sf.Chunks = []int{512}
+									case 2:
+										sf.Chunks = []int{97, 0, 4096}
+									case 3:
+										sf.Chunks = []int{4096}
+									}
+								} else {
+									switch k % 4 {
+									case 1:
+										sf.Chunks = []int{1}
+									case 2:
+										sf.Chunks = []int{3, 0, 2}
+									case 3:
+										sf.Chunks = []int{7}
+									}
 								}
 								rd, err := ex.ExportWith(newSimReader(op.Tmpl, sf, &ctx.fst))
 								res.Stats.Exports++
